@@ -229,6 +229,49 @@ pub fn run(cfg: &Cfg, rep: &mut Report) {
                     _ => ctx.violation(&format!("C07:non-decimal:{}", if fits { "exact-value-expected" } else { "range-error-expected" }), jobj(&[("literal", jbytes(&text)), ("value", val.to_string()), ("type", jstr(ty.name)), ("result", jstr(&format!("{:?}", r.as_ref().map_err(|e| e.get_code()))))])),
                 }
             }
+            2 if rng.chance(1, 2) => {
+                // non-decimal literals at and beyond the 64-bit boundary (with leading zeros): a literal that
+                // denotes more than u64::MAX cannot be carried by any integer target, so the lexer/conversion
+                // pipeline must end in -222, never in a value
+                let (text, exact) = crate::gen::msg::gen_nondec_wide(rng);
+                let mut tz = Tokenizer::new_params(&text);
+                let first = tz.next();
+                ctx.count("nondecimal-wide");
+                ctx.nontrivial(mix(hash_bytes(&text), ctx.index % 10));
+                let shown = |r: &dyn std::fmt::Debug| jobj(&[("literal", jbytes(&text)), ("exact_value_fits_u64", jstr(&format!("{:?}", exact))), ("type", jstr(ty.name)), ("result", jstr(&format!("{:?}", r)))]);
+                match (exact, first) {
+                    (Some(val), Some(Ok(tok @ Token::NonDecimalNumericProgramData(_)))) => {
+                        let rest = tz.next();
+                        if rest.is_some() {
+                            ctx.violation("C07:non-decimal-literal-not-lexed-as-one-element", shown(&rest));
+                            return;
+                        }
+                        let r = (ty.conv)(tok);
+                        let fits = (val as i128) <= ty.max;
+                        match (&r, fits) {
+                            (Ok(v), true) if *v == val as i128 => {}
+                            (Err(e), false) if e.get_code() == -222 => {}
+                            _ => ctx.violation(&format!("C07:non-decimal:{}", if fits { "exact-value-expected" } else { "range-error-expected" }), shown(&r.as_ref().map_err(|e| e.get_code()))),
+                        }
+                    }
+                    (Some(_), other) => ctx.violation("C07:non-decimal-literal-not-lexed-as-one-element", shown(&other)),
+                    (None, Some(Err(e))) => {
+                        ctx.count("nondecimal-wide.beyond-64-bit");
+                        if e.get_code() != -222 {
+                            ctx.violation("C07:non-decimal:beyond-64-bit:range-error-expected", shown(&e.get_code()));
+                        }
+                    }
+                    (None, Some(Ok(tok))) => {
+                        ctx.count("nondecimal-wide.beyond-64-bit");
+                        let r = (ty.conv)(tok);
+                        match r {
+                            Err(e) if e.get_code() == -222 => {}
+                            other => ctx.violation("C07:non-decimal:beyond-64-bit:value-or-wrong-error", shown(&(format!("{:?}", tok), other.map_err(|e| e.get_code())))),
+                        }
+                    }
+                    (None, None) => ctx.violation("C07:non-decimal-literal-not-lexed-as-one-element", shown(&"no token")),
+                }
+            }
             2 => {
                 // MIN / MAX in short/long form any case; near misses are type errors
                 let (kw, want): (&[u8], Option<i128>) = *rng.pick(&[(&b"MAX"[..], Some(1)), (b"MAXimum", Some(1)), (b"MIN", Some(-1)), (b"MINimum", Some(-1)), (b"MAXI", None), (b"MINIMU", None), (b"MA", None), (b"MAXIMUMS", None), (b"DEF", None), (b"INF", None)]);
